@@ -952,7 +952,7 @@ pub fn check_case(ctx: &mut Ctx, case: &Case, cfg: &Cfg, props: &[String], want_
     }
 
     // ---- C10 tabs vs spaces with the width unconstrained
-    if has(props, "C10") && !text.contains('\t') {
+    if has(props, "C10") {
         let mut sp = cfg.clone();
         sp.wrap_column = u32::MAX;
         sp.use_tabs = false;
@@ -968,7 +968,9 @@ pub fn check_case(ctx: &mut Ctx, case: &Case, cfg: &Cfg, props: &[String], want_
             // beyond 255 columns the two renderings differ by known finding F4; the saturation itself is checked per line
             let over = sp.tab_width as u32 * sp.continuation_indents as u32 > 255;
             let c10_site = "";
-            if expanded != *os && !over {
+            // (a tab in the input can only survive in text that is kept verbatim, which is the same in both results but must
+            // not be expanded: for such inputs the per-line clause below decides alone)
+            if expanded != *os && !over && !text.contains('\t') {
                 res.viols.push(Viol { prop: "C10", clause: "tabs_expand_to_spaces", detail: format!("tab_width={} ci={}: {}{c10_site}", sp.tab_width, sp.continuation_indents, first_diff(os, &expanded)) });
             }
             for r in [&rs, &rt] {
